@@ -113,6 +113,23 @@ def search(ctx):
         X0 = np.atleast_1d(expf(np.zeros(g.adim)))
         if not np.max(np.abs(np.atleast_2d(toM(X0)) - np.eye(np.atleast_2d(toM(X0)).shape[0]))) <= 1e-12:
             report(g.name + ".exp:zero", "exp(0) is not the identity", {"exp0": X0.tolist(), "identity": ident.tolist()}, 1.0, 1e-12)
+    # Euler target just OUTSIDE the gimbal band (the documented band is +-1e-3 rad): exact there
+    expE = nl.F("SO3", "SO3Euler.exp"); toME = nl.F("SO3", "SO3Euler.toMatrix")
+    for it in range(30 if ctx.tier == "quick" else 600):
+        e = common.s_euler(rng)
+        if it % 2 == 0:
+            d = 10 ** rng.uniform(np.log10(1.05e-3), np.log10(3e-2))
+            e[1] = rng.choice([-1.0, 1.0]) * (np.pi / 2 - d)
+        R = common.euler_R(e)
+        ang = np.arccos(np.clip((np.trace(R) - 1) / 2, -1, 1))
+        if ang < 1e-3 or ang > np.pi - 1e-2:
+            continue
+        w = np.array([R[2, 1] - R[1, 2], R[0, 2] - R[2, 0], R[1, 0] - R[0, 1]]) / (2 * np.sin(ang)) * ang
+        X = np.atleast_1d(expE(w)); ev += 1
+        err = np.max(np.abs(toME(X) - nl.expm(nl.hat(w))))
+        if not err <= 1e-8:
+            report("SO3Euler.exp:near-band", "to_Matrix(exp(x)) != expm(hat x) for a result just outside the gimbal band",
+                   {"x": w.tolist(), "euler_of_result": e.tolist()}, err, 1e-8)
     ctx.samples.extend(found[:3] or [{"group": "SE3Mrp", "x": [0.3, -1.2, 0.5, 2.1, -2.3, 0.9]}])
     return found, {"evaluations": ev, "distinct_nontrivial": ev, "cells": cells, "groups": [g.name for g in groups]}
 
